@@ -108,3 +108,28 @@ Example C10_star_run :
     last_index (r_log F2') = 5 /\ committed (r_log F2') = 5 /\
     last_index (r_log F3') = 5 /\ committed (r_log F3') = 5.
 Proof. exact sp_run. Qed.
+
+(* 8: the 3-node star, continued: after its 191 rounds (state pp_Lc, pp_Fsc) every hypothesis
+   of star_propose_all holds; 251 = (heartbeat_timeout + 2) * pair_measure_bound 6 0 +
+   heartbeat_timeout + 1 *)
+Example C10_propose_applies :
+  forall L2 L' Fs',
+  propose_persist pp_Lc [42] = Ok L2 ->
+  star_rounds (248 + 3) L2 pp_Fsc = Ok (L', Fs') ->
+  committed (r_log L') = last_index (r_log sp_L) + 1 /\
+  Forall2 (prop_done sp_L pp_Lc [42] L') pp_Fsc Fs'.
+Proof. exact pp_applies. Qed.
+
+(* and it all runs (computed): the first run, propose + persist, the second run; the proposed
+   entry (data [42]) is entry 6 of all three logs and everybody has committed it *)
+Example C10_propose_run :
+  star_rounds (188 + 3) sp_L [sp_F2; sp_F3] = Ok (pp_Lc, pp_Fsc) /\
+  propose_persist pp_Lc [42] = Ok pp_L2 /\
+  star_rounds (248 + 3) pp_L2 pp_Fsc = Ok pp_end /\
+  committed (r_log (fst pp_end)) = 6 /\
+  map (fun F => log_entries (r_log F) 6 None) (fst pp_end :: snd pp_end) =
+    [Ok (SOk [mkEntry EntryNormal 2 6 [42] []]); Ok (SOk [mkEntry EntryNormal 2 6 [42] []]);
+     Ok (SOk [mkEntry EntryNormal 2 6 [42] []])] /\
+  map (fun F => committed (r_log F)) (snd pp_end) = [6; 6] /\
+  map r_id (snd pp_end) = [2; 3].
+Proof. split; [exact pp_mid_ok|]. split; [exact pp_L2_ok|exact pp_run]. Qed.
